@@ -88,17 +88,39 @@ def compose_fwd(table, mode, N, L, J, h0, h1, which="ref"):
     return X, highs
 
 
-def extract_fwd_multi(mode, N, L, J, h0, h1):
+def extract_fwd_multi(mode, N, L, J, h0, h1, f32=False):
     import torch
     import pytorch_wavelets as pw
     dwtlib.f64()
-    X = torch.eye(N).reshape(N, 1, N)
+    if f32:
+        torch.set_default_dtype(torch.float32)
     try:
+        X = torch.eye(N).reshape(N, 1, N)
         m = pw.DWT1DForward(J=J, wave=(h0, h1), mode=mode)
         yl, yh = m(X)
+        if f32 and (yl.dtype != torch.float32 or any(y.dtype != torch.float32 for y in yh)):
+            return dwtlib.Raised(TypeError("float32 input, outputs %s" % [str(yl.dtype)] + [str(y.dtype) for y in yh]))
     except Exception as e:   # noqa
         return dwtlib.Raised(e)
-    return yl[:, 0, :].numpy().T, [y[:, 0, :].numpy().T for y in yh]
+    finally:
+        dwtlib.f64()
+    return yl[:, 0, :].double().numpy().T, [y[:, 0, :].double().numpy().T for y in yh]
+
+
+def f32_exact(absop, L, B=9):
+    """absop = (low, highs) composed with the ABSOLUTE taps: its entries bound every partial sum of the integer computation; below
+    2^24 (with room for one more stage) float32 arithmetic on it is exact"""
+    flat = []
+
+    def rec(a):
+        if isinstance(a, np.ndarray):
+            flat.append(a)
+        else:
+            for q in a:
+                rec(q)
+    rec(absop)
+    m = max([float(np.abs(a).max()) for a in flat if a.size] + [0.0])
+    return m * 4 < 2 ** 24
 
 
 def chain_in_table(table, mode, N, L, J):
@@ -142,6 +164,16 @@ def analysis_multi_level(rep, fnd, table, records, pid, api="DWT1DForward"):
         el, eh = compose_fwd(table, mode, N, L, J, h0, h1, "ref")
         good = lens_obs == r["ref_lens"] and dwtlib.eq_int(yl, el) and all(
             dwtlib.eq_int(a, b) for a, b in zip(yh, eh))
+        if good and n_ok % 2 == 0 and f32_exact(compose_fwd(table, mode, N, L, J, np.abs(h0), np.abs(h1), "ref"), L):
+            # the same operator from FLOAT32 data: every value is an exactly representable integer, so float32 arithmetic is exact and
+            # the operator must be the reference operator - an algorithm that depends on the dtype cannot hide behind rounding
+            o32 = extract_fwd_multi(mode, N, L, J, h0, h1, f32=True)
+            rep.count("multi_level_analysis_float32")
+            if isinstance(o32, dwtlib.Raised) or not (dwtlib.eq_int(o32[0], el) and all(dwtlib.eq_int(a, b) for a, b in zip(o32[1], eh))):
+                rep.violation("%s %d-level transform of FLOAT32 data differs from the (exactly representable) composed pywt operators at %s%s"
+                              % (api, J, cfg, ": %r" % (o32,) if isinstance(o32, dwtlib.Raised) else ""),
+                              dict(case, taps=[h0.tolist(), h1.tolist()], dtype="float32"))
+                continue
         if good:
             n_ok += 1
             if r["outcome"] != "ok" or lens_obs != r["lens"]:
@@ -203,16 +235,23 @@ def compose_fwd2(table, rec, taps, which="ref"):
     return X, highs
 
 
-def extract_fwd2(mode, H, W, J, wave):
+def extract_fwd2(mode, H, W, J, wave, f32=False):
     import torch
     import pytorch_wavelets as pw
     dwtlib.f64()
-    X = torch.eye(H * W).reshape(H * W, 1, H, W)
+    if f32:
+        torch.set_default_dtype(torch.float32)
     try:
+        X = torch.eye(H * W).reshape(H * W, 1, H, W)
         m = pw.DWTForward(J=J, wave=wave, mode=mode)
         yl, yh = m(X)
+        if f32 and (yl.dtype != torch.float32 or any(y.dtype != torch.float32 for y in yh)):
+            return dwtlib.Raised(TypeError("float32 input, outputs %s" % [str(yl.dtype)] + [str(y.dtype) for y in yh]))
     except Exception as e:   # noqa
         return dwtlib.Raised(e)
+    finally:
+        dwtlib.f64()
+    yl, yh = yl.double(), [y.double() for y in yh]
     low = yl[:, 0].reshape(H * W, -1).numpy().T
     highs = [[y[:, 0, b].reshape(H * W, -1).numpy().T for b in range(3)] for y in yh]
     shapes = [tuple(y.shape[-2:]) for y in yh]
@@ -258,6 +297,15 @@ def analysis_2d(rep, fnd, table, records, pid, api="DWTForward"):
         exp_shapes = list(zip(r["ref_lensH"], r["ref_lensW"]))
         good = shapes == exp_shapes and dwtlib.eq_int(low, el) and all(
             dwtlib.eq_int(a, b) for la, lb in zip(highs, eh) for a, b in zip(la, lb))
+        if good and n_ok % 2 == 0 and f32_exact(compose_fwd2(table, r, {"col": (np.abs(h0), np.abs(h1)), "row": (np.abs(h0), np.abs(h1))}, "ref"), max(Lc, Lr)):
+            o32 = extract_fwd2(mode, H, W, J, (h0, h1), f32=True)
+            rep.count("2d_analysis_float32")
+            if isinstance(o32, dwtlib.Raised) or not (dwtlib.eq_int(o32[0], el) and all(
+                    dwtlib.eq_int(a, b) for la, lb in zip(o32[1], eh) for a, b in zip(la, lb))):
+                rep.violation("%s of FLOAT32 data differs from the (exactly representable) composed pywt operators at %s%s"
+                              % (api, cfg, ": %r" % (o32,) if isinstance(o32, dwtlib.Raised) else ""),
+                              dict(case, taps=[h0.tolist(), h1.tolist()], dtype="float32"))
+                continue
         if good:
             n_ok += 1
             if r["outcome"] != "ok" or shapes != list(zip(r["lensH"], r["lensW"])):
